@@ -308,6 +308,19 @@ class C09:
                 result_allocs = {x for x in rsub if x[0] == "alloc"} | {a for a, v in s.alloc_comps.items() if v in rsub}
                 group = {a: es for a, es in muts.items() if a in result_allocs}
                 if len(group) < 2:
+                    # no accumulators: result lists built by comprehensions -- they stay in step iff none of them filters
+                    comps = [x for x in rsub if x[0] == "comp" and x[1] == "list"]
+                    if len(comps) >= 2 and not muts:
+                        def filtered(cp):
+                            return any(cnds for _, _, cnds in cp[3]) or any(filtered(it_) for _, it_, _ in cp[3] if it_[0] == "comp")
+                        fl = [cp for cp in comps if filtered(cp)]
+                        site = f"{m.relpath}:{s.node.lineno} {name}"
+                        if fl and len(fl) != len(comps):
+                            ctx.bad("R09.6", m.relpath, name, f"{show(fl[0])[:70]}",
+                                    f"{name}: one of the result lists is built with a filter (`{show(fl[0])[:90]}`) and another is not: the truth / "
+                                    f"score rows no longer correspond one-to-one to the evaluated items", s.node.lineno)
+                        else:
+                            ctx.ok("R09.6", site, f"{len(comps)} result lists built by comprehensions over the same items, none filtered on its own")
                     continue
                 site = f"{m.relpath}:{s.node.lineno} {name}"
                 sig = {a: sorted((e.loops, repr(canon(e.live))) for e in es) for a, es in group.items()}
